@@ -132,6 +132,29 @@ class C11(ProgProp):
             m = re.match(r't (\w+) release-begin$', l)
             if m and m.group(1) in holding:
                 windows.append((m.group(1), holding.pop(m.group(1)), i))
+        # a client can only be the recipient of an out-event while it possibly holds the claim: from the start of a
+        # claim call until that claim was refused, or until the release of the granted claim has returned
+        possibly = {}     # id -> list of (start, end)
+        open_at = {}
+        for i, l in enumerate(tr):
+            m = re.match(r't (\w+) claim-begin$', l)
+            if m:
+                open_at[m.group(1)] = i
+            m = re.match(r't (\w+) claim ret=(-?\d+)$', l)
+            if m and int(m.group(2)) != grant and m.group(1) in open_at:
+                possibly.setdefault(m.group(1), []).append((open_at.pop(m.group(1)), i))
+            m = re.match(r't (\w+) release-end$', l)
+            if m and m.group(1) in open_at:
+                possibly.setdefault(m.group(1), []).append((open_at.pop(m.group(1)), i))
+        for cid, a in open_at.items():
+            possibly.setdefault(cid, []).append((a, len(tr)))
+        if any(re.match(r't \w+ claim-begin$', l) for l in tr):
+            for i, l in enumerate(tr):
+                mm = re.match(r'obs env@(\w+) ', l)
+                if mm and not any(a <= i <= b for a, b in possibly.get(mm.group(1), [])):
+                    failed.append(f'an out-event was delivered to {mm.group(1)} (trace line {i}) although it certainly did not hold the '
+                                  'claim at that moment: no claim of it was in progress or granted-and-not-yet-released')
+                    break
         ndel = 0
         i = 0
         while i < len(tr):
